@@ -1,4 +1,5 @@
-/-! Parsing/printing helpers for the line protocol (no imports beyond core). -/
+import Dbg.Model.Seq
+/-! Parsing/printing helpers for the line protocol. -/
 namespace Drv
 
 abbrev R := Except String
@@ -12,13 +13,14 @@ def splitOn (s : String) (sep : String) : List String :=
   if s.isEmpty then [] else s.splitOn sep
 
 /-- "0123…" → bases -/
-def digits (s : String) : R (List Nat) :=
+def digits (s : String) : R Compress.Seq :=
   if s == "-" then pure [] else
   s.toList.mapM fun c =>
-    if '0' ≤ c ∧ c ≤ '3' then pure (c.toNat - '0'.toNat) else throw s!"bad-base:{c}"
+    if c == '0' then pure (0 : Fin 4) else if c == '1' then pure 1 else if c == '2' then pure 2
+    else if c == '3' then pure 3 else throw s!"bad-base:{c}"
 
-def showDigits (l : List Nat) : String :=
-  if l.isEmpty then "-" else String.ofList (l.map fun b => Char.ofNat (b + '0'.toNat))
+def showDigits (l : Compress.Seq) : String :=
+  if l.isEmpty then "-" else String.ofList (l.map fun b => Char.ofNat (b.val + '0'.toNat))
 
 def natList (s : String) (sep : String := ",") : R (List Nat) :=
   if s == "-" then pure [] else (splitOn s sep).mapM nat
